@@ -143,6 +143,20 @@ def run(ctx: Context) -> None:
             srt = m.stmt('$start, $end = sorted((($pt, self.distance_along_line($pt)) for $pt in $points), key=lambda $pair: $pair[1])') \
                 or m.stmt('$start, $end = sorted([($pt, self.distance_along_line($pt)) for $pt in $points], key=lambda $pair: $pair[1])')
             proj = srt
+        swapped = None
+        if pts is None or proj is None:
+            # the same two ends without the little sort: both distances computed, and points and distances exchanged together when they are out of order
+            ms = Matcher(ctx, seg)
+            if ms.has('$sp = shapely.Point($piece.coords[0])', '$ep = shapely.Point($piece.coords[-1])', '$sd = self.distance_along_line($sp)', '$ed = self.distance_along_line($ep)'):
+                sp, ep, sd, ed = (ms.name(k) for k in ('sp', 'ep', 'sd', 'ed'))
+                for alt in (f"if {ed} < {sd}:\n    {sp}, {ep} = ({ep}, {sp})\n    {sd}, {ed} = ({ed}, {sd})", f"if {sd} > {ed}:\n    {sp}, {ep} = ({ep}, {sp})\n    {sd}, {ed} = ({ed}, {sd})",
+                            f"if {ed} < {sd}:\n    {sd}, {ed} = ({ed}, {sd})\n    {sp}, {ep} = ({ep}, {sp})", f"if {sd} > {ed}:\n    {sd}, {ed} = ({ed}, {sd})\n    {sp}, {ep} = ({ep}, {sp})"):
+                    swapped = swapped or ms.stmt(alt)
+                others = [n for n in ast.walk(seg.node) if isinstance(n, ast.Name) and isinstance(n.ctx, ast.Store) and n.id in (sp, ep, sd, ed)]
+                if swapped is not None and len(others) == 8:     # each of the four names: made once, exchanged once
+                    pts = proj = srt = swapped
+                else:
+                    swapped = None
         ctx.check('R18.2', pts is not None and proj is not None, "the end points are the first and last coordinate of the piece, each with its distance along the path", seg,
                   pts or seg.node, construct='points = [Point(piece.coords[0]), Point(piece.coords[-1])]; projections = ((p, distance_along_line(p)) for p in points)')
         ctx.check('R18.2', srt is not None, "start and end are the two end points sorted ascending by distance", seg, srt or seg.node,
@@ -150,6 +164,9 @@ def run(ctx: Context) -> None:
         ok = all(k in kw for k in ('start_point', 'end_point', 'start_distance', 'end_distance')) and \
             m.match('$start[0]', kw['start_point'], commit=False) and m.match('$end[0]', kw['end_point'], commit=False) and \
             m.match('$start[1]', kw['start_distance'], commit=False) and m.match('$end[1]', kw['end_distance'], commit=False)
+        if swapped is not None:
+            ok = all(k in kw for k in ('start_point', 'end_point', 'start_distance', 'end_distance')) and \
+                [norm_text(kw[k]) for k in ('start_point', 'end_point', 'start_distance', 'end_distance')] == [sp, ep, sd, ed] and swapped.lineno < ts[0].lineno
         ctx.check('R18.2', bool(ok), "start_* fields take the nearer end, end_* the farther", seg, ts[0])
         rets = seg.returns()
         seglist = norm_text(app[0].func.value) if app else 'segments'
